@@ -226,6 +226,9 @@ def instr_pool(spec, rng, want, flow=False, max_tries=None):
         if spec.family.startswith("x86") and (name in X86_DENY or name.startswith("F") or
                                               name.startswith("REP") or "CR" in name):
             continue
+        if spec.family == "mips32" and name in ("LL", "SC"):
+            # load-linked / store-conditional depend on a link flag kept outside the register file
+            continue
         if spec.family == "mep" and name in ("REPEAT", "EREPEAT"):
             # hardware loops read the PC *register*, which the back ends refresh at different
             # moments (see PC_REGS): control-flow instructions, not generated
